@@ -25,7 +25,8 @@ def build_struct(surface, loads, load_factor=1.0, extra=None, setup_kw=None):
 
 
 def build_aerostruct(surfaces, v=248.136, alpha=5.0, beta=0.0, Mach=0.84, re=1.0e6, rho=0.38, CT=9.80665 * 17.0e-6, R=11.165e6,
-                     W0=0.4 * 3e5, a=295.4, load_factor=1.0, empty_cg=(0, 0, 0), npoints=1, compressible=False, point_kw=None, solver=None, setup_kw=None, pre_setup=None):
+                     W0=0.4 * 3e5, a=295.4, load_factor=1.0, empty_cg=(0, 0, 0), npoints=1, compressible=False, point_kw=None, solver=None, setup_kw=None, pre_setup=None,
+                     point_masses=None, point_mass_locations=None, engine_thrusts=None):
     from openaerostruct.integration.aerostruct_groups import AerostructGeometry, AerostructPoint
     prob = om.Problem(reports=False)
     ivc = om.IndepVarComp()
@@ -35,6 +36,12 @@ def build_aerostruct(surfaces, v=248.136, alpha=5.0, beta=0.0, Mach=0.84, re=1.0
         ivc.add_output(k, val=np.array(vals if vals is not None else [val] * npoints, dtype=float) if npoints > 1 else val, units=u)
     ivc.add_output("empty_cg", val=np.array(empty_cg, dtype=float), units="m")
     any_pm = any("n_point_masses" in s for s in surfaces)
+    if any_pm:
+        # as in the package's point-load examples: one set of point masses (engines) for the surfaces that declare n_point_masses
+        ivc.add_output("point_masses", val=np.array(point_masses, dtype=float), units="kg")
+        ivc.add_output("point_mass_locations", val=np.array(point_mass_locations, dtype=float), units="m")
+        if engine_thrusts is not None:
+            ivc.add_output("engine_thrusts", val=np.array(engine_thrusts, dtype=float), units="N")
     prob.model.add_subsystem("prob_vars", ivc, promotes=["*"])
     if any(s.get("distributed_fuel_weight", False) for s in surfaces):
         # (before the points: an independent variable placed after its consumers would be a feedback connection,
@@ -67,6 +74,11 @@ def build_aerostruct(surfaces, v=248.136, alpha=5.0, beta=0.0, Mach=0.84, re=1.0
             else:
                 for q in ("Qz", "J", "A_enc", "htop", "hbottom", "hfront", "hrear", "spar_thickness"):
                     prob.model.connect(name + "." + q, com + q)
+            if "n_point_masses" in s:
+                prob.model.connect("point_masses", pn + ".coupled." + name + ".point_masses")
+                prob.model.connect("point_mass_locations", pn + ".coupled." + name + ".point_mass_locations")
+                if engine_thrusts is not None:
+                    prob.model.connect("engine_thrusts", pn + ".coupled." + name + ".engine_thrusts")
             if s.get("struct_weight_relief", False):
                 prob.model.connect(name + ".element_mass", pn + ".coupled." + name + ".element_mass")
             if s.get("distributed_fuel_weight", False):
